@@ -81,6 +81,7 @@ type SpecFunc struct {
 	// lemma parts
 	IsLemma  bool
 	Opaque   bool
+	Rec      bool // uninterpreted symbol; the definition is instantiated once at each use site (fuel 1)
 	Requires []*Clause
 	Ensures  []*Clause
 	Props    []string
@@ -181,14 +182,19 @@ func parseContractFile(path, pkgPath string) (*ContractFile, error) {
 				return nil, err
 			}
 			lastCl, cur = nil, nil
-			opaque := false
+			opaque, rec := false, false
 			if strings.HasPrefix(rest, "opaque ") {
 				opaque = true
 				rest = strings.TrimSpace(rest[len("opaque "):])
 			}
+			if strings.HasPrefix(rest, "rec ") {
+				rec = true
+				rest = strings.TrimSpace(rest[len("rec "):])
+			}
 			sp, err := parseSpecHeader(rest, word == "lemma")
 			if sp != nil {
 				sp.Opaque = opaque
+				sp.Rec = rec
 			}
 			if err != nil {
 				return nil, fmt.Errorf("%s:%d: %v", path, ln+1, err)
